@@ -54,7 +54,7 @@ def replay_steps(chk, rows, rnd, thorough):
                     obs = {'outcome': out, 'wrote': wrote, 'refs': sess.abstract_refs(), 'detail': detail}
                     exp_out = OUTCOME_OK[act['outcome']]
                 # the regeneration table itself (state of the anchor)
-                table = {('NoKind' if k is None else k): ('T' if v else 'F')
+                table = {rs.kabs(k): ('T' if v else 'F')
                          for k, v in sess.RT.regenerate.items()}
                 exp_table = {k: v for k, v in r['post_regen'].items() if v != 'unset'}
             finally:
@@ -100,7 +100,7 @@ def record_sessions(rnd, nsessions, maxlen, root):
     for tid in range(nsessions):
         # every session uses one file per type (two for lists of text files)
         ptypes = {'p0': 'string', 'p1': 'textfile', 'p2': 'textfiles', 'p3': 'textfiles',
-                  'p4': 'binary', 'p5': 'dataframe', 'p6': 'ondisk', 'p7': 'csvframe', 'p8': 'csv2pq'}
+                  'p4': 'binary', 'p5': 'dataframe', 'p6': 'ondisk', 'p7': 'csvframe', 'p8': 'csv2pq', 'p9': 'csvlegacy'}
         cnames = ['c%d' % i for i in range(20)]
         sess = rs.Session(os.path.join(root, 't%d' % tid), ptypes, cnames, variant=rnd.randint(0, 3))
         try:
@@ -169,7 +169,7 @@ def record_sessions(rnd, nsessions, maxlen, root):
                     sess.set_regeneration(kind, flag)
                     events.append({'tid': tid, 'seq': seq, 'ev': 'SetRegeneration', 'kind': kind, 'flag': flag})
                     continue
-                ty = rnd.choice(['string', 'textfile', 'textfiles', 'binary', 'dataframe', 'ondisk', 'csvframe', 'csv2pq'])
+                ty = rnd.choice(['string', 'textfile', 'textfiles', 'binary', 'dataframe', 'ondisk', 'csvframe', 'csv2pq', 'csvlegacy'])
                 kind = rnd.choice(['NoKind'] + kinds)
                 paths = [p for p, t in ptypes.items() if t == ty]
                 if ty == 'textfiles' and rnd.random() < 0.5:
@@ -430,12 +430,22 @@ def demonstrate_binding(chk, events):
             c[idx[0]]['refs'][p] = 'c9' if c[idx[0]]['refs'][p] != 'c9' else 'c8'
             demos.append(('corrupt-field', c))
     # (b) drop a SetRegeneration(.., True) that was followed by a regenerating assertion
+    #     ... and on which that assertion's regeneration depended (an earlier request may cover the kind as well: dropping a
+    #     redundant request changes nothing and is rightly accepted)
+    def would_regenerate(evs_, upto, kind):
+        table = {}
+        for x in evs_[:upto]:
+            if x['ev'] == 'SetRegeneration':
+                table[x['kind']] = x['flag']
+        return table[kind] if kind in table else table.get('NoKind', False)
     for tid, evs in bytid.items():
         for i, e in enumerate(evs):
-            if e['ev'] == 'SetRegeneration' and e['flag'] and any(x['ev'] == 'Assert' and x['wrote'] for x in evs[i + 1:i + 3]):
-                c = copy.deepcopy(evs[:i] + evs[i + 1:])
-                demos.append(('drop-event', c))
-                break
+            if e['ev'] == 'SetRegeneration' and e['flag']:
+                without = evs[:i] + evs[i + 1:]
+                js = [j for j in range(i, min(i + 2, len(without))) if without[j]['ev'] == 'Assert' and without[j]['wrote']]
+                if js and not would_regenerate(without, js[0], without[js[0]]['kind']):
+                    demos.append(('drop-event', copy.deepcopy(without)))
+                    break
         if len(demos) >= 2:
             break
     ok = 0
